@@ -147,6 +147,7 @@ package bigslice
 //@   panic_ensures typecheck-error: hastype(panicval, *typecheck.Error)
 //@   ensures  result: hastype(out, *constSlice) && unbox(out, *constSlice).nshard == nshard && tyNumOut(unbox(out, *constSlice).Type) == len(columns) && forall(i, 0, len(columns), tyOut(unbox(out, *constSlice).Type, i) == rtElem(dynRType(columns[i])))
 //@   modifies nothing
+//@   loop 1 invariant forall(j, 0, range_idx, goLen(columns[j]) == goLen(columns[0]))
 
 // ReaderFunc(nshard, func(shard int, state S, col1 []t1, ..., coln []tn) (int, error)) Slice<t1..tn>
 //@ spec func readerSchema(read any) bool = isFuncValue(read) && tyNumOut(fnIn(read)) >= 3 && rtKind(tyOut(fnIn(read), 0)) == reflect.Int && tyNumOut(fnOut(read)) == 2 && rtKind(tyOut(fnOut(read), 0)) == reflect.Int && tyOut(fnOut(read), 1) == typeOfError && forall(i, 2, tyNumOut(fnIn(read)), rtKind(tyOut(fnIn(read), i)) == reflect.Slice)
@@ -192,3 +193,30 @@ package bigslice
 //@   loop 5 invariant (out.arr == keyTypes.arr || fresh(out)) && len(out) >= len(keyTypes) && forall(j, 0, len(keyTypes), out[j] == tyOut(slices[0], j))
 //@   loop 6 invariant (out.arr == keyTypes.arr || fresh(out)) && len(out) >= len(keyTypes) && forall(j, 0, len(keyTypes), out[j] == tyOut(slices[0], j)) && i >= len(keyTypes)
 //@   loop 7 invariant forall(k, 0, range_idx, slNumShard(slices[k]) <= numShard) && (numShard == 0 || exists(k, 0, range_idx, slNumShard(slices[k]) == numShard))
+
+// ---- C18: arguments of an invocation are checked against the Func's parameter types ----
+
+//@ spec func nilAssignableKind(k reflect.Kind) bool = k == reflect.Chan || k == reflect.Func || k == reflect.Interface || k == reflect.Map || k == reflect.Ptr || k == reflect.Slice || k == reflect.UnsafePointer
+//@ func bigslice.isNilAssignable (typ) (ok)
+//@   requires typ != nil
+//@   ensures  ok == nilAssignableKind(rtKind(typ))
+//@   modifies nothing
+
+// an argument of (dynamic) type have fits a parameter of type expect: an untyped nil fits nil-able kinds, an interface
+// parameter accepts implementers, anything else must be identical
+//@ spec func argFits(expect reflect.Type, have reflect.Type) bool = ite(have == nil, nilAssignableKind(rtKind(expect)), ite(rtKind(expect) == reflect.Interface, rtImplements(have, expect), have == expect))
+
+//@ func bigslice.(*FuncValue).typecheck (args)
+//@   requires f != nil && forall(i, 0, len(f.args), f.args[i] != nil)
+//@   panics_if !(len(args) == len(f.args) && forall(i, 0, len(args), argFits(f.args[i], args[i])))
+//@   panic_ensures typecheck-error: hastype(panicval, *typecheck.Error)
+//@   modifies nothing
+//@   loop 1 invariant forall(j, 0, range_idx, argFits(f.args[j], args[j]))
+
+//@ func bigslice.(*FuncValue).applyValue (args) (out)
+//@   requires f != nil && forall(i, 0, len(f.args), f.args[i] != nil) && (f.args.arr == 0 || allocated(f.args.arr))
+//@   may_panic
+//@   panic_ensures rejected-as-typecheck-error: implies(!old(len(args) == len(f.args) && forall(i, 0, len(args), ite(rvValid(args[i]), argFits(f.args[i], rvType(args[i])), nilAssignableKind(rtKind(f.args[i]))))), hastype(panicval, *typecheck.Error))
+//@   modifies unknown
+//@   loop 1 invariant forall(i, 0, len(f.args), f.args[i] != nil && f.args[i] == old(f.args[i]))
+//@   loop 1 invariant len(argTypes) == len(args) && fresh(argTypes) && forall(j, 0, range_idx, j < len(f.args) && ite(rvValid(old(args[j])), argTypes[j] == rvType(old(args[j])), nilAssignableKind(rtKind(f.args[j])) && argTypes[j] == f.args[j])) && forall(j, range_idx, len(args), args[j] == old(args[j]))
